@@ -120,6 +120,7 @@ def main():
     if a.replay:
         rp, o = native(json.load(open(a.replay))['case']); print(o); sys.exit(1 if rp else 0)
     rep = R.Report('C11', a.tier, seed); timeout = solve.TIMEOUT_MS[a.tier]
+    R.prefetch_native('props.c11_native', ['bounded', str(seed), a.tier])      # the stand-in runs while the obligations are discharged
     u = DCm.Dist(); u.ld.load(KN.TT)
     for k in (KN.PM + '::PartitionedDistinguisherMixin._accumulate', KN.PM + '::PartitionedDistinguisherMixin._accumulate_core_1', KN.PM + '::PartitionedDistinguisherMixin._accumulate_core_2',
               KN.TM + '::_TemplateBuildDistinguisherMixin._accumulate', KN.TM + '::_TemplateBuildDistinguisherMixin._accumulate_core_1', KN.TM + '::_TemplateBuildDistinguisherMixin._accumulate_core_2'): rep.function(k, u.sha(k))
